@@ -198,28 +198,33 @@ func normQuant(s *sx) *sx {
 		}
 		var shift []*sx
 		ok := true
-		for k, sm := range sums {
+		first := true
+		for _, sm := range sums {
 			var terms []*sx
 			flattenSum(sm, &terms)
 			var rest []*sx
 			nv := 0
+			nested := false
 			for _, t := range terms {
 				if t.isAtom() && t.atom == v {
 					nv++
 				} else if t.mentions(v) {
-					ok = false
+					nested = true
 				} else {
 					rest = append(rest, t)
 				}
 			}
-			if nv != 1 {
-				ok = false
+			if nv == 0 && nested {
+				// v only occurs inside a nested select (an element used as an index):
+				// that inner index is examined on its own
+				continue
 			}
-			if !ok {
+			if nv != 1 || nested {
+				ok = false
 				break
 			}
-			if k == 0 {
-				shift = rest
+			if first {
+				shift, first = rest, false
 			} else if !sameMultiset(shift, rest) {
 				ok = false
 				break
